@@ -1,4 +1,5 @@
 use std::collections::HashSet;
+use syn::ext::IdentExt;
 use syn::visit_mut::VisitMut;
 
 #[derive(Copy, Clone, Eq, PartialEq)]
@@ -35,14 +36,15 @@ pub fn fix_fn_param_idents(sig: &mut syn::Signature) {
 
 fn fix_ident_conflicts(sig: &mut syn::Signature) -> ParamStatus {
     let mut status = ParamStatus::Ok;
-    let fn_ident_string = sig.ident.to_string();
+    // `r#foo` and `foo` are the same identifier
+    let fn_ident_string = sig.ident.unraw().to_string();
     // Every binding counts as taken, also the ones inside patterns:
     // they may be lifted out to become parameter names later.
     struct BindingCollector(HashSet<String>);
 
     impl syn::visit_mut::VisitMut for BindingCollector {
         fn visit_pat_ident_mut(&mut self, i: &mut syn::PatIdent) {
-            self.0.insert(i.ident.to_string());
+            self.0.insert(i.ident.unraw().to_string());
             syn::visit_mut::visit_pat_ident_mut(self, i);
         }
     }
@@ -66,8 +68,8 @@ fn fix_ident_conflicts(sig: &mut syn::Signature) -> ParamStatus {
                     param_ident.mutability = None;
                     param_ident.subpat = None;
 
-                    if param_ident.ident == fn_ident_string {
-                        let mut new_ident_string = format!("{}_", param_ident.ident);
+                    if param_ident.ident.unraw() == fn_ident_string {
+                        let mut new_ident_string = format!("{}_", fn_ident_string);
                         while taken_idents.contains(&new_ident_string) {
                             new_ident_string.push('_');
                         }
